@@ -31,8 +31,9 @@ def _process_many(*args, connectable, zip, combine):
                     observer.on_next(x)
                     if zip is True or combine is True:
                         base_index = x.key[0] * n
-                        queue[base_index+i] = None
-                        has_next[base_index+i] = False
+                        for index in range(n):
+                            queue[base_index+index] = None
+                            has_next[base_index+index] = False
                 return
 
             elif not isinstance(x, rs.OnNextMux):
